@@ -190,33 +190,11 @@ def check(src, rep):
     I = M.classes.get((MOD, "Ident"))
     rep.require(I is not None, "anchor vanished: dlde.Ident")
     ok4 = True
-    for prop, grp in (("manufacturer_id", "MANID"), ("identification", "ID")):
-        f = I.methods.get(prop)
-        if f is None:
+    from sa.decoders import ident_findings
+    for tag, text in ident_findings(M, "dlde"):
+        if tag in ("ident-group", "ident-str"):
             ok4 = False
-            continue
-        groups = [n.args[0].value for n in ast.walk(f.node) if isinstance(n, ast.Call) and isinstance(n.func, ast.Attribute) and n.func.attr == "group" and n.args and isinstance(n.args[0], ast.Constant)]
-        if groups != [grp]:
-            ok4 = False
-            rep.violation("R4", f"dlde.Ident.{prop}", "ident-group", f"{prop} reads regex group {groups} instead of '{grp}'", file, f.node.lineno)
-    try:
-        pat = None
-        init = None
-        for n in ast.walk(I.methods["__init__"].node):
-            if isinstance(n, ast.Call) and isinstance(n.func, ast.Attribute) and n.func.attr in ("match", "fullmatch", "search") and isinstance(n.func.value, ast.Name):
-                init = M.mod_consts.get(MOD, {}).get(n.func.value.id)
-        if isinstance(init, ast.Call) and init.args:
-            pat = ce.eval(init.args[0], {}, MOD)
-        rx = re.compile(pat)
-        gi = rx.groupindex
-        if not ("MANID" in gi and "ID" in gi):
-            raise Undecided("identification pattern lacks groups MANID / ID")
-        m = rx.match("/LGF5E360\r\n")
-        if not m or m.group("MANID") != "LGF" or m.group("ID") != "E360":
-            ok4 = False
-            rep.violation("R4", "dlde._ident_pattern", "group-spans", "groups MANID / ID of the pattern do not span the three flag letters / the identification", file, 1)
-    except (NotConstant, re.error, TypeError) as e:
-        raise Undecided(f"identification pattern not evaluable: {e}")
+            rep.violation("R4", "dlde.Ident", tag, f"the identification line is not split into its three flag letters and the identification: {text}", file, I.node.lineno)
     dr = M.funcs.get("dlde.decode_p1_readout")
     rep.require(dr is not None, "anchor vanished: dlde.decode_p1_readout")
     dc = M.funcs.get("dlde.decode_p1_readout_content")
